@@ -128,6 +128,10 @@ func init() {
 							V: map[string]int{"later": later}, S: map[string]string{"cause": c, "mix": m}})
 					}
 				}
+				// server pings on: the end event lands at a ping tick (a ping write may fail while
+				// handlers are still running)
+				ps = append(ps, Param{Name: fmt.Sprintf("%s-unary-later1-pings", c), Bound: b,
+					V: map[string]int{"later": 1, "pings": 1}, S: map[string]string{"cause": c, "mix": "unary"}})
 				if tier == "thorough" {
 					for _, later := range []int{0, 1} {
 						ps = append(ps, Param{Name: fmt.Sprintf("%s-all-later%d", c, later), Bound: 1,
@@ -142,7 +146,11 @@ func init() {
 }
 
 func connendBody(s *vsched.Sched, p Param) {
-	w := NewWorld(s, jsonrpc.WithServerPingInterval(0))
+	sp := time.Duration(0)
+	if p.I("pings") == 1 {
+		sp = time.Second
+	}
+	w := NewWorld(s, jsonrpc.WithServerPingInterval(sp))
 	srv := &EndSrv{s: s, ctxs: map[string]context.Context{}, started: map[string]bool{}, retd: map[string]bool{}, later: p.I("later") == 1}
 	w.RPC.Register("T", srv)
 	w.Serve()
@@ -180,6 +188,9 @@ func connendBody(s *vsched.Sched, p Param) {
 			return fired && connGone()
 		}
 		if name == "end-go" {
+			if p.I("pings") == 1 && s.Now() < time.Second {
+				return false
+			}
 			return allStarted()
 		}
 		return true
